@@ -43,6 +43,26 @@ func registerTime(m map[string]modelFn) {
 		}
 		return Tuple{e.timeZero(), Iface{}}
 	}
+	// time.NewTimer: the timer has fired by the time anybody looks at it (the pause itself is not
+	// modelled); a select between the timer and a cancelled context forks over both.
+	m["time.NewTimer"] = func(fr *frame, a []Value) Value {
+		e := fr.e
+		tp := e.Prog.ImportedPackage("time")
+		tt := tp.Type("Timer").Object().Type()
+		sv := zero(tt).(Struct)
+		ci := structFieldIndex(tt, "C")
+		ct := tt.Underlying().(*types.Struct).Field(ci).Type()
+		ch := e.makeChan(ct, 1)
+		sv[ci] = ch
+		var cell Value = sv
+		// the timer fires only when no goroutine can make progress otherwise ("time passes when
+		// nothing else happens"): an event such as a cancellation that is already visible wins
+		e.pendingTimers = append(e.pendingTimers, ch)
+		e.Assumptions["time.NewTimer: fires when every goroutine is blocked (durations are not modelled)"] = true
+		return &cell
+	}
+	m["(*time.Timer).Stop"] = func(fr *frame, a []Value) Value { return smt.True }
+	m["(*time.Timer).Reset"] = func(fr *frame, a []Value) Value { return smt.True }
 	m["time.Since"] = func(fr *frame, a []Value) Value { return intC(0) }
 	m["time.Sleep"] = func(fr *frame, a []Value) Value { fr.e.yield(); return nil }
 }
